@@ -16,7 +16,7 @@ import (
 func init() {
 	Register(&Spec{
 		ID:          "C11",
-		Explanation: "Decides structural necessary conditions of exactly-once, deadlock-free promise pipelining: (R1) lock balance and the documented 'caller must hold p.mu' contracts in answer.go, on every CFG path; (R2) all Promise fields declared after mu are only touched with Promise.mu held (named exemptions for the pending-state exclusive accesses); (R3) a lazily created map field is established non-nil on every path before each element assignment; (R4) every function that receives a capnp.Recv consumes its Returner exactly once on every path; (R5) ongoingCalls++/-- bracket the pipeline call on every path and callsStopped is closed only under ongoingCalls == 0 && callsStopped != nil; (R6) joined/signals are cleared after being closed, and Fulfill/Reject/Join act only when isUnresolved(); (R7) no application code and no re-lock under Promise.mu. (R6c) rows written by Join into the target's clients table extend the existing row; (R7p) no foreign code is reached in any function while a Promise.mu is held. (R6d) close(p.joined) in Join depends on nothing but p.joined being set. (R8b, R8c) ClientPromise.Fulfill credits the references to the resolution, before waiting for the old hook (shared with C10-R6b/R6c). Does NOT decide exactly-once delivery under all interleavings nor reference transfer of proxy clients.",
+		Explanation: "Decides structural necessary conditions of exactly-once, deadlock-free promise pipelining: (R1) lock balance and the documented 'caller must hold p.mu' contracts in answer.go, on every CFG path; (R2) all Promise fields declared after mu are only touched with Promise.mu held (named exemptions for the pending-state exclusive accesses); (R3) a lazily created map field is established non-nil on every path before each element assignment; (R4) every function that receives a capnp.Recv consumes its Returner exactly once on every path; (R5) ongoingCalls++/-- bracket the pipeline call on every path and callsStopped is closed only under ongoingCalls == 0 && callsStopped != nil; (R6) joined/signals are cleared after being closed, and Fulfill/Reject/Join act only when isUnresolved(); (R7) no application code and no re-lock under Promise.mu. (R6c) rows written by Join into the target's clients table extend the existing row; (R7p) no foreign code is reached in any function while a Promise.mu is held. (R6d) close(p.joined) in Join depends on nothing but p.joined being set. (R8b, R8c) ClientPromise.Fulfill credits the references to the resolution, before waiting for the old hook (shared with C10-R6b/R6c). (R10) the call goroutine of a local server settles the answer queue (fulfill or reject) before it calls Returner.Return. Does NOT decide exactly-once delivery under all interleavings nor reference transfer of proxy clients.",
 		Run:         runC11,
 	})
 }
@@ -25,6 +25,7 @@ func runC11(ctx *Ctx) {
 	ruleJoinMergesRows(ctx, "C11-R6c")
 	ruleJoinedAlwaysClosed(ctx, "C11-R6d")
 	ruleResolutionOnlyWhenResolved(ctx, "C11-R9")
+	ruleQueueSettledBeforeReturn(ctx, "C11-R10")
 	// pipelined clients handed out earlier end up referring to the resolved
 	// capability: what ClientPromise.Fulfill credits and when (shared with
 	// C10-R6b/R6c)
